@@ -139,6 +139,9 @@ Rows == <<
   <<"OXM_OF_ACTSET_OUTPUT", 32768, 43, 4>>
 >>
 Names == {Rows[i][1] : i \in DOMAIN Rows}
+\* names of the table that an implementation need not register (the library does not): either an
+\* error or the right header is accepted for them; every other name of the table must resolve.
+Optional == {"NXM_NX_DP_HASH", "NXM_NX_RECIRC_ID", "OXM_OF_PBB_UCA", "OXM_OF_TCP_FLAGS", "OXM_OF_ACTSET_OUTPUT"}
 RowOf(name) == Rows[CHOOSE i \in DOMAIN Rows : Rows[i][1] = name]
 ClassOf(name) == RowOf(name)[2]
 FieldOf(name) == RowOf(name)[3]
